@@ -97,7 +97,7 @@ func c14Body() func(h []dsim.Rec) {
 		count("cov:outgoing-traffic")
 	}
 	// ---- plan
-	ns := 2 + dsim.Choose(4)
+	ns := 2 + dsim.Choose(depth(4, 7))
 	var sessions []*session
 	for i := 0; i < ns; i++ {
 		s := &session{frames: dsim.Choose(6), readK: 1 + dsim.Choose(5)}
